@@ -119,10 +119,17 @@ def keyed_cache(cfg: CFG, loop: ast.AST, name: str) -> Tuple[bool, str]:
         if guarded is None:
             return False, f"store {txt(store)} is not in the miss arm of `{key_text} not in {name}`"
         arm = guarded.body if isinstance(guarded.test.ops[0], ast.NotIn) else guarded.orelse  # type: ignore[attr-defined]
-        # the loop variable may appear in the miss arm only inside the key expression
+        # anything that changes from one iteration to the next may appear in the miss arm only inside the key
+        # expression: the loop variable and every name bound in the loop body outside the arm
+        arm_nodes = {id(x) for stmt in arm for x in [stmt] + list(walk_local(stmt))}
+        bound_in_arm = {n.id for stmt in arm for n in [stmt] + list(walk_local(stmt))
+                        if isinstance(n, ast.Name) and isinstance(n.ctx, ast.Store)}
+        bound_outside = {n.id for n in body_nodes if isinstance(n, ast.Name) and isinstance(n.ctx, ast.Store)
+                         and id(n) not in arm_nodes}
+        varying = (loopvars | bound_outside) - bound_in_arm - {name}
         for stmt in arm:
             for sub in [stmt] + list(walk_local(stmt)):
-                if isinstance(sub, ast.Name) and sub.id in loopvars:
+                if isinstance(sub, ast.Name) and isinstance(sub.ctx, ast.Load) and sub.id in varying:
                     anc: Optional[ast.AST] = sub
                     inside_key = False
                     while anc is not None and anc is not stmt and not inside_key:
